@@ -2,14 +2,27 @@
 
 package tracer
 
-import "sync"
+import (
+	"sync"
+	"time"
+)
 
 type vfCollector struct {
-	mu     sync.Mutex
-	traces []Trace
+	mu       sync.Mutex
+	traces   []Trace
+	inflight sync.WaitGroup
 }
 
+// vfSlowCollect, when set, says how long the collector takes to accept a trace (a collector that is busy, e.g.
+// with another trace or with a lock held by a waiter).
+var vfSlowCollect func(t Trace) time.Duration
+
 func (c *vfCollector) Complete(t Trace) {
+	c.inflight.Add(1)
+	defer c.inflight.Done()
+	if slow := vfSlowCollect; slow != nil {
+		time.Sleep(slow(t))
+	}
 	c.mu.Lock()
 	defer c.mu.Unlock()
 	c.traces = append(c.traces, t)
